@@ -41,7 +41,7 @@ func init() {
 		Level:     "other",
 		Technique: "abstract interpretation: gate entailment with subject agreement — the NameState whose owner/admin is witnessed is the record keyed by the same token-id term that keys the record being changed",
 		Explanation: "For addRecord, setRecord, deleteRecords, updateSOA, renew: every effect is gated by committee-majority ∨ W(owner(T)) ∨ W(admin(T)) where T is exactly the token id that keys the written/deleted record; transfer by W(owner(token)); setAdmin by W(owner(name)) and additionally (admin == nil ∨ W(admin)); register by W(owner argument) and, for names of level > 2, additionally by the admin formula of the directly enclosing name (name without its first label); TLD registration by the committee (C03). " +
-			"Rights follow ownership because the gate reads the stored record in the same invocation and Transfer clears the admin (C10.D4). D5 Transfer stores the record with Admin := nil (transfer-resets-admin). M: SetAdmin stores the record on every normal return.",
+			"Rights follow ownership because the gate reads the stored record in the same invocation and Transfer clears the admin (C10.D4). D5 Transfer stores the record with Admin := nil (transfer-resets-admin). M: SetAdmin stores the record on every normal return. R7: the documented gates of the NNS mutators (the gate rule of C03) are decided here as well.",
 		NotCovered: "signer sets over evolving histories at run time (the statement is over program paths and stored state at invocation time).",
 		Run:        runC11,
 	})
@@ -896,6 +896,13 @@ func checkExpiryBoundaries(cx *CheckCtx) {
 func runC11(cx *CheckCtx) {
 	w := cx.W
 	nnsTransferResetsAdmin(cx, "transfer-resets-admin")
+	// "on behalf of an owner who witnesses the transaction", "only with the witness of its owner or admin":
+	// the documented gates of the NNS mutators (the T-witness rows, shared with C03)
+	for _, name := range []string{"Register", "RegisterTLD", "Transfer", "SetAdmin", "Renew", "RenewDefault", "AddRecord", "SetRecord", "DeleteRecords", "UpdateSOA"} {
+		if m := cx.method("nns", name); m != nil {
+			gateRule(cx, m)
+		}
+	}
 	c := cx.contract("nns")
 	if c == nil {
 		return
